@@ -144,6 +144,10 @@ MODULES = [
              rep='let mut all_entries: Vec<Entry<R>> = Vec::new();\n        all_entries.push(first_entry);\n        all_entries.append(&mut self.tmp_entries);\n        for entry0 in all_entries {\n            let Entry { cursor: mut ecursor, source_index: eindex } = entry0;'),
         dict(name='R-field-split:cursor', kind='re', pat=r'\bentry\.cursor\.move_on_next\(\)', rep='ecursor.move_on_next()', count='+'),
         dict(name='R-field-split:push', pat='self.heap.push(entry)', rep='self.heap.push(Entry { cursor: ecursor, source_index: eindex })', count='+'),
+        # R-enumerate: `for (index, mut source) in self.sources.into_iter().enumerate() { B }` becomes a counted loop over the Vec
+        # (`index = index + 1;` is appended to the loop body by the spec's loop_end part; B has no `continue`)
+        dict(name='R-enumerate', pat='for (index, mut source) in self.sources.into_iter().enumerate() {',
+             rep='let mut index: usize = 0;\n        for source0 in self.sources {\n            let mut source = source0;'),
         dict(name='R-closure-pat:k', pat='.map(|(k, _)| k)', rep='.map(|e: (&[u8], &[u8])| -> (r: &[u8]) ensures r@ == e.0@ { e.0 })', count=2),
         dict(name='R-mutself', kind='mutself', fn='add', count=1),
     ]),
